@@ -190,7 +190,10 @@ def _decompress_body_gzip(data: bytes, *, max_output_size: int | None = None) ->
     """
     do = zlib.decompressobj(_GZIP_WBITS)
     if max_output_size is None:
-        return do.decompress(data) + do.flush()
+        out = do.decompress(data) + do.flush()
+        if not do.eof:
+            raise DecompressionError("gzip stream ended before its end-of-stream marker (truncated body)")
+        return out
 
     chunks: list[bytes] = []
     total = 0
@@ -214,6 +217,11 @@ def _decompress_body_gzip(data: bytes, *, max_output_size: int | None = None) ->
         if total > max_output_size:
             raise DecompressionLimitExceeded(f"Decompressed gzip output exceeds max_output_size={max_output_size}")
         chunks.append(tail)
+    # decompressobj never complains about a member that just stops: without
+    # this a truncated body is "decoded" to a prefix of the plaintext (or to
+    # all of it, CRC unchecked, when only the trailer is missing).
+    if not do.eof:
+        raise DecompressionError("gzip stream ended before its end-of-stream marker (truncated body)")
     return b"".join(chunks)
 
 
